@@ -409,6 +409,7 @@ func Supervise(e Engine, opt *Options) int {
 	knownSeen := map[string]bool{}
 	reported := map[string]bool{}
 	var cases []*violCase
+	machinery := false
 	for i := range all.found {
 		f := &all.found[i]
 		for _, v := range f.V {
@@ -437,8 +438,11 @@ func Supervise(e Engine, opt *Options) int {
 	}
 	for _, c := range cases {
 		if c.v.Class == "machinery" {
-			fmt.Printf("MACHINERY-TROUBLE %s: run %d: %s\n", e.ID(), c.idx, tail(c.v.Detail, 3000))
-			return 2
+			if !machinery {
+				fmt.Printf("MACHINERY-TROUBLE %s: run %d: %s\n", e.ID(), c.idx, tail(c.v.Detail, 3000))
+			}
+			machinery = true
+			continue
 		}
 		if fd := findings.Match(c.v.Sig); fd != nil {
 			if !knownSeen[fd.Sig] {
@@ -452,7 +456,7 @@ func Supervise(e Engine, opt *Options) int {
 			all.stats["violations_same_sig"]++
 			continue
 		}
-		if len(reported) >= 5 {
+		if len(reported) >= 3 {
 			all.stats["violations_unprocessed"]++
 			continue
 		}
@@ -471,6 +475,10 @@ func Supervise(e Engine, opt *Options) int {
 			}
 		}
 	}
+	if machinery && exit == 0 {
+		// trouble with no confirmed violation: the check itself is at fault
+		exit = 2
+	}
 	wall := time.Since(t0).Seconds()
 	if err := writeEvidence(e, opt, all, nViol, wall, knownSeen); err != nil {
 		fmt.Printf("MACHINERY-TROUBLE %s: evidence: %v\n", e.ID(), err)
@@ -482,6 +490,17 @@ func Supervise(e Engine, opt *Options) int {
 	fmt.Printf("verif %s tier=%s done: runs=%d distinct_nontrivial=%d interleavings=%d violations=%d known=%d wall=%.1fs\n",
 		e.ID(), opt.Tier, all.runs, len(all.tuples), len(all.hashes), nViol, len(knownSeen), wall)
 	return exit
+}
+
+var shrinkCalls int
+
+// shrinkBudget gives the first violation 45 s of minimisation and later ones 15 s.
+func shrinkBudget() time.Duration {
+	shrinkCalls++
+	if shrinkCalls == 1 {
+		return 45 * time.Second
+	}
+	return 15 * time.Second
 }
 
 func tail(s string, n int) string {
@@ -609,7 +628,7 @@ func processViolation(e Engine, opt *Options, c *violCase) (string, string) {
 	rf.Scenario = sample
 	// 2. shrink the trace (not for deaths without a trace: those are replayed from the seed).
 	if tr != nil && !opt.NoShrink {
-		deadline := time.Now().Add(60 * time.Second)
+		deadline := time.Now().Add(shrinkBudget())
 		attempts := 0
 		best, bestSample, bestDetail := tr, sample, rf.Violation.Detail
 		best = Shrink(best, func(cand vs.Trace) (bool, vs.Trace) {
@@ -668,7 +687,7 @@ func processPayloadViolation(e Engine, opt *Options, c *violCase, rf *ReplayFile
 		rf.Violation.Detail = detail
 	}
 	if !opt.NoShrink {
-		deadline := time.Now().Add(60 * time.Second)
+		deadline := time.Now().Add(shrinkBudget())
 		pr := e.(PayloadRunner)
 		rp := persistent
 		if c.death {
